@@ -60,7 +60,11 @@ Section RunTotal.
   Variable Pm : M -> Prop.
   Variable Bc : nat.
   Hypothesis Pm_empty : Pm (mempty D).
-  Hypothesis H_bind : forall m ks inc, Pm m -> exists l, bind_all D h m ks inc = Ok l /\ (length l <= Bc)%nat /\ Forall Pm l.
+  (** the key lists handed to bind_all: scopes, and sub-lists of the keys recorded for a pattern *)
+  Variable okks : list K -> Prop.
+  Hypothesis okks_scope : forall st, In st (au_states A) -> okks (a_scope st).
+  Hypothesis okks_match : forall st pk f, In st (au_states A) -> In pk (a_matches st) -> okks (filter f (snd pk)).
+  Hypothesis H_bind : forall m ks inc, Pm m -> okks ks -> exists l, bind_all D h m ks inc = Ok l /\ (length l <= Bc)%nat /\ Forall Pm l.
   Hypothesis H_retain_scope : forall st m, In st (au_states A) -> Pm m -> exists m', mretain D (a_scope st) m = Ok m' /\ Pm m'.
   Hypothesis H_retain_match : forall st pk m, In st (au_states A) -> In pk (a_matches st) -> Pm m ->
     exists m', mretain D (snd pk) m = Ok m'.
@@ -141,7 +145,9 @@ Section RunTotal.
     intros Hst Hm. unfold emissions. apply rflatM_total'. intros [pid keys] Hpk. cbn zeta.
     set (new_keys := filter (fun k => match mget D m k with None => true | Some _ => false end) keys).
     assert (Hbs : exists bs, match new_keys with [] => Ok [m] | _ => bind_all D h m new_keys false end = Ok bs /\ Forall Pm bs).
-    { destruct new_keys; [exists [m]; split; auto|]. destruct (H_bind m (k :: new_keys) false Hm) as [l [E [_ F]]]. eauto. }
+    { destruct new_keys as [|k0 nk] eqn:En; [exists [m]; split; auto|].
+      destruct (H_bind m new_keys false Hm) as [l0 [E [_ F]]]; [apply (okks_match st (pid, keys) _ Hst Hpk)|].
+      rewrite En in E. eauto. }
     destruct Hbs as [bs [-> HF]]. cbn [rbind].
     destruct (rmapM_total (mretain D keys) bs) as [bs' [-> _]].
     { intros b Hb. rewrite Forall_forall in HF. apply (H_retain_match st (pid, keys) b Hst Hpk (HF b Hb)). }
@@ -153,7 +159,7 @@ Section RunTotal.
                /\ forall y, In y ys -> Pm (snd y) /\ exists e, In e (a_out st) /\ e_target e = fst y.
   Proof.
     intros Hst Hm. unfold next_legal_states.
-    destruct (H_bind m (a_scope st) true Hm) as [cands [B [Hlc HFc]]]. rewrite B. cbn [rbind].
+    destruct (H_bind m (a_scope st) true Hm (okks_scope st Hst)) as [cands [B [Hlc HFc]]]. rewrite B. cbn [rbind].
     assert (HR : exists cands', rmapM (mretain D (a_scope st)) cands = Ok cands' /\ length cands' = length cands /\ Forall Pm cands').
     { clear B Hlc. induction cands as [|c cs IH]; [exists []; auto|]. inversion HFc as [|? ? Hc Hcs]; subst.
       destruct (H_retain_scope st c Hst Hc) as [c' [Ec Pc]]. destruct (IH Hcs) as [cs' [Ecs [Hl Fc]]].
